@@ -8,6 +8,7 @@ import DdoModel.Engines.Viz
 import DdoModel.Engines.ExModel
 import DdoModel.Engines.DomCyc
 import DdoModel.Engines.CacheOrder
+import DdoModel.Engines.CacheDom
 /-! Line-protocol driver.  stdin: pairs of lines
       `C <engine> <id> <case tokens…>`
       `I <id> <implementation output tokens…>`
@@ -32,6 +33,7 @@ def dispatch (engine : String) (c i : List String) : Option Res :=
   | "exmodel" => exmodelEngine c i
   | "domcyc" => domcycEngine c i
   | "cacheorder" => cacheorderEngine c i
+  | "cachedom" => cachedomEngine c i
   | _ => none
 
 partial def loop (h : IO.FS.Stream) (out : IO.FS.Stream) : IO Unit := do
